@@ -183,13 +183,13 @@ impl Check for Adversarial {
         "E2 full depth-first search: the function answers every new abscissa (memoised on its bits, so each path is a genuine continuous function through the answered points) with a value from {+-1, +-0.01} (Brent {+-1, +-0.3}; thorough adds 0), ALL answer sequences up to the method's own termination bound (Brent: up to an evaluation cap, deeper paths are truncated and only their prefix is judged); brackets in both orders, straddling zero, far from zero; the first two answers are the end points, so same-sign rejections are part of the same search; signature = (method, outcome class, number of evaluations)".into()
     }
     fn axes(&self, t: Tier) -> Value {
-        json!({"brackets": BRACKETS, "tolerance": "width/2^m", "m": t.pick(vec![3, 4], vec![3, 4, 5, 6]), "itp": {"k1": [0.1, 1.0], "k2": [1.5, 2.0, 2.5], "n0": [0.0, 1.0, 2.0]}, "brent_cap": t.pick(9, 12)})
+        json!({"brackets": BRACKETS, "tolerance": "width/2^m", "m": t.pick(vec![3, 4, 5], vec![3, 4, 5, 6, 7]), "itp": {"k1": [0.1, 1.0], "k2": [1.5, 2.0, 2.5], "n0": [0.0, 1.0, 2.0]}, "brent_cap": t.pick(10, 13)})
     }
     fn points(&self, t: Tier) -> Vec<AdvPt> {
         let mut v = vec![];
         let d = ItpParams { k1: 0.1, k2: 2.0, n0: 1.0 };
         for &bracket in &BRACKETS {
-            for &m in &t.pick(vec![3u32, 4], vec![3, 4, 5, 6]) {
+            for &m in &t.pick(vec![3u32, 4, 5], vec![3, 4, 5, 6, 7]) {
                 for with_zero in t.pick(vec![false], vec![false, true]) {
                     if with_zero && m > 4 {
                         continue;
@@ -201,7 +201,7 @@ impl Check for Adversarial {
                                 if t == Tier::Quick && !(k2 == 2.0 || (k1 == 0.1 && n0 == 1.0)) {
                                     continue;
                                 }
-                                if m + n0 as u32 > 6 {
+                                if m + n0 as u32 > t.pick(6, 8) {
                                     continue;
                                 }
                                 v.push(AdvPt { method: Method::Itp, bracket, m, itp: ItpParams { k1, k2, n0 }, cap: 0, with_zero, choices: None });
@@ -209,7 +209,7 @@ impl Check for Adversarial {
                         }
                     }
                     if !with_zero {
-                        v.push(AdvPt { method: Method::Brent, bracket, m, itp: d, cap: t.pick(9, 12), with_zero, choices: None });
+                        v.push(AdvPt { method: Method::Brent, bracket, m, itp: d, cap: t.pick(10, 13), with_zero, choices: None });
                     }
                 }
             }
@@ -330,7 +330,7 @@ impl Check for Deviations {
         "deviations-from-concrete-functions"
     }
     fn rule(&self) -> String {
-        "E2 deviation-bounded: 6 concrete default functions with a root at 0.4; at most d answers (d = 1 quick, 2 thorough) are replaced by -f(x), 1e-6 f(x) or exactly 0, at any position, up to the method's full evaluation bound (this reaches the depths the full search cannot: long Brent runs, exact zeros, sign flips late in the run); signature = (method, outcome class, evaluations)".into()
+        "E2 deviation-bounded: 6 concrete default functions with a root at 0.4; at most d answers (d = 2 quick, 3 thorough) are replaced by -f(x), 1e-6 f(x) or exactly 0, at any position, up to the method's full evaluation bound (this reaches the depths the full search cannot: long Brent runs, exact zeros, sign flips late in the run); signature = (method, outcome class, evaluations)".into()
     }
     fn points(&self, t: Tier) -> Vec<DevPt> {
         let mut v = vec![];
@@ -339,7 +339,7 @@ impl Check for Deviations {
             for func in 0..6 {
                 for &bracket in &[(0.0, 1.0), (-3.0, 0.9), (1.0, -1.0)] {
                     for &tol in &t.pick(vec![1e-3, 1e-9], vec![1e-2, 1e-5, 1e-9, 1e-12]) {
-                        v.push(DevPt { method, func, bracket, tol, itp: d, dev_bound: t.pick(1, 2), choices: None });
+                        v.push(DevPt { method, func, bracket, tol, itp: d, dev_bound: t.pick(2, 3), choices: None });
                     }
                 }
             }
